@@ -332,7 +332,7 @@ pub fn run_transport(args: &[String]) {
     let base = kind.trim_end_matches("-lib").to_string();
     let direct = matches!(base.as_str(), "unix" | "unix-mode" | "abstract" | "tcp") && !lib_client;
     let own_server = direct || lib_client;
-    let port = 24000 + (std::process::id() % 20000);
+    let port = free_port(base == "tcp6");
     let address = match base.as_str() {
         "unix" => format!("unix:{}/s", dir.display()),
         "unix-mode" => format!("unix:{}/s;mode=0666", dir.display()),
